@@ -574,6 +574,26 @@ def nesting_boundary():
                        XB(b'A'))
 
 
+def tiny_tail_family():
+    """get_xref_start on small files: the last %%EOF at every position 0..60 of the buffer (the code subtracts 25 from it
+    behind the guard `eof_pos > 25`), with and without a startxref line before it, with bytes before %PDF- (the buffer is
+    sliced at the header first), and with the keyword split across the 512-byte window"""
+    for pos in range(0, 61):
+        pad = max(0, pos - 9)
+        yield b'%PDF-1.4\n' + b'x' * pad + b'%%EOF\n'
+        yield b'%PDF-1.4\n' + b'x' * pad + b'%%EOF'
+        if pos >= 22:
+            yield b'%PDF-1.4\n' + b'x' * (pos - 22) + b'startxref\n0\n%%EOF\n'
+            yield b'junk' * 3 + b'%PDF-1.4\n' + b'x' * (pos - 22) + b'startxref\n9\n%%EOF'
+    for k in (500, 505, 507, 508, 511, 512, 513, 520, 537, 538, 600):
+        yield b'%PDF-1.4\n' + b'startxref\n0\n%%EOF\n' + b' ' * k
+        yield b'%PDF-1.4\n' + b'%%EOF' * 3 + b'startxref\n0\n' + b'%%EOF ' * (k // 6)
+    yield b'%%EOF'
+    yield b'%PDF-'
+    yield b'%PDF-1.4\n' + b'%%EOF' * 200
+    yield b'%PDF-1.4\n' + b'startxref' * 100 + b'%%EOF'
+
+
 def pdf_with_tounicode(cmap, text, clen):
     """one page whose font has the given ToUnicode CMap (Identity-H for two-byte codes) and whose content shows [text]"""
     hexs = b'<' + text.hex().encode() + b'>'
@@ -738,6 +758,8 @@ def gen_cases(rng, tier):
         add(line, k + '-nestboundary')
     add(case('load', XB(objstm_shared_offsets_file(1000, 100000))), 'load-objstm-shared')       # 100 MB: below the cap
     add(case('load', XB(objstm_shared_offsets_file())), 'load-objstm-shared')                     # 1.5 GB: the known finding
+    for b in tiny_tail_family():
+        add(case('load', XB(b)), 'load-tinytail')
     # adversarial whole files
     n = 3000 if q else 20000
     chain = [(i, b'<</Length %d 0 R>>stream\nx\nendstream' % (i + 1)) for i in range(1, n + 1)] + [(n + 1, b'1')]
